@@ -174,6 +174,9 @@ pub struct Sim {
     pub aborted: bool,
     pub harness_error: Option<String>,
     pub total_calls: u64,
+    /// Wall-clock watchdog for one execution; firing makes the execution inconclusive.
+    pub deadline: Option<std::time::Instant>,
+    pub timed_out: bool,
 }
 
 thread_local! {
@@ -217,6 +220,8 @@ impl Sim {
             aborted: false,
             harness_error: None,
             total_calls: 0,
+            deadline: Some(std::time::Instant::now() + std::time::Duration::from_secs(30)),
+            timed_out: false,
         }
     }
 
@@ -359,6 +364,32 @@ impl Sim {
             id,
             self.step,
         );
+        // The call belonged to the machinery of a specific property: the panic is also that
+        // property's failure (its own monitor never got to see the result of the call).
+        let owner: Option<&'static str> = if opname.starts_with("step(MsgSnapshot") || opname.starts_with("reportsnapshot") {
+            Some("C15")
+        } else if opname.starts_with("step(MsgReadIndex") || opname.starts_with("read_index") {
+            Some("C08")
+        } else if opname.starts_with("step(MsgTransferLeader") || opname.starts_with("step(MsgTimeoutNow") || opname.starts_with("transfer") {
+            Some("C17")
+        } else if opname.starts_with("propose_conf") || opname.starts_with("apply_conf_change") {
+            Some("C09")
+        } else if opname.starts_with("ready") || opname.starts_with("advance") || opname.starts_with("onpersistready") {
+            Some("C07")
+        } else {
+            None
+        };
+        if let Some(prop) = owner {
+            let first = self.mon.violations.last().map(|v| v.detail.clone()).unwrap_or_default();
+            self.mon.violation(
+                prop,
+                "call-panicked",
+                format!("panic-in/{}", op_sig(opname)),
+                first,
+                id,
+                self.step,
+            );
+        }
         // The node object is in an unknown state: treat it as crashed.
         self.kill(v);
     }
@@ -403,7 +434,9 @@ impl Sim {
                 let name = op.short();
                 self.log(format!("n{} {} => PANIC {}", self.nodes[v].id, name, msg));
                 self.report_panic(v, &name, msg, loc);
-                self.aborted = true;
+                if self.mon.has_fatal() || self.harness_error.is_some() {
+                    self.aborted = true;
+                }
                 None
             }
             Ok(r) => {
@@ -434,7 +467,7 @@ impl Sim {
                 if self.trace_cap > 0 {
                     let id = node.id;
                     let s = format!(
-                        "n{} {} => {:?} [{:?} t{} v{} l{} c{} a{} p{} li{} lt{}]",
+                        "n{} {} => {:?} [{:?} t{} v{} l{} c{} a{} p{} li{} lt{}]{}",
                         id,
                         op.short(),
                         res,
@@ -446,7 +479,12 @@ impl Sim {
                         post.applied,
                         post.persisted,
                         post.last_index,
-                        post.last_term
+                        post.last_term,
+                        if post.pending_reads > 0 || post.read_states_len > 0 {
+                            format!(" reads pending {} answered {}", post.pending_reads, post.read_states_len)
+                        } else {
+                            String::new()
+                        }
                     );
                     self.log(s);
                 }
@@ -654,6 +692,15 @@ impl Sim {
                     Some(rd) => rd,
                     None => return true,
                 };
+                if self.trace_cap > 0 && !rd.read_states().is_empty() {
+                    let ids = self.nodes[v].id;
+                    let s: Vec<String> = rd
+                        .read_states()
+                        .iter()
+                        .map(|r| format!("{}@{}", String::from_utf8_lossy(&r.request_ctx), r.index))
+                        .collect();
+                    self.log(format!("n{} read states {:?}", ids, s));
+                }
                 let metas = {
                     let nodes = &self.nodes;
                     self.mon.on_ready(nodes, v, &rd, has, self.step)
@@ -935,6 +982,15 @@ impl Sim {
             return false;
         }
         self.step += 1;
+        if self.step % 4096 == 0 {
+            if let Some(d) = self.deadline {
+                if std::time::Instant::now() > d {
+                    self.timed_out = true;
+                    self.aborted = true;
+                    return false;
+                }
+            }
+        }
         match a {
             Action::Tick(v) => {
                 if !self.nodes[*v].idle() {
@@ -1092,6 +1148,10 @@ impl Sim {
                     self.mon.on_read_issue(nodes, v, &ctx, self.step);
                 }
                 let c2 = ctx.clone();
+                if self.trace_cap > 0 {
+                    let ids = self.nodes[v].id;
+                    self.log(format!("n{} read_index ctx {}", ids, String::from_utf8_lossy(&ctx)));
+                }
                 self.call(v, Op::ReadIndex(ctx), |raw| raw.read_index(c2), |_| Res::Unit)
                     .is_some()
             }
